@@ -508,3 +508,107 @@ func VerifC01_Twin() {
 	zzverif.Assert(ok && got == interface{}(b-a), "twin")
 	zzverif.Reach("twin")
 }
+
+// ---------------------------------------------------------------------------
+// match: literal / variable / wildcard / object patterns and guards; the
+// bindings of a case that does not apply are not visible in later cases
+
+func runSource(src string, body interface{}, params map[string]string) (interface{}, bool) {
+	toks, err := parser.NewLexer(src).Tokenize()
+	if err != nil {
+		panic("harness program does not lex: " + err.Error())
+	}
+	m, err := parser.NewParser(toks).Parse()
+	if err != nil {
+		panic("harness program does not parse: " + err.Error())
+	}
+	in := interpreter.NewInterpreter()
+	if err := in.LoadModule(*m); err != nil {
+		panic("harness program does not load: " + err.Error())
+	}
+	for _, it := range m.Items {
+		if r, ok := it.(*ast.Route); ok {
+			resp, err := in.ExecuteRoute(r, &interpreter.Request{Path: r.Path, Method: r.Method.String(), Body: body, Params: params})
+			if err != nil {
+				return nil, false
+			}
+			return resp.Body, true
+		}
+	}
+	panic("harness program has no route")
+}
+
+const srcMatchObject = `
+@ POST /greet {
+  $ name = "outer"
+  $ msg = match input {
+    {name, role: "admin"} => "A:" + name
+    {name, role: "guest"} => "G:" + name
+    _ => "O:" + name
+  }
+  > msg
+}
+`
+
+func VerifC01_MatchObjectBindings() {
+	who := zzverif.StringFrom("who", 1, "ab")
+	role := []string{"admin", "guest", "other"}[zzverif.Choice("role", 3)]
+	got, ok := runSource(srcMatchObject, map[string]interface{}{"name": who, "role": role}, nil)
+	want := "O:outer"
+	switch role {
+	case "admin":
+		want = "A:" + who
+	case "guest":
+		want = "G:" + who
+	}
+	zzverif.Assert(ok && got == interface{}(want), "match: a case that does not apply leaked its bindings, or the wrong case ran")
+	zzverif.Reach("matchobj")
+}
+
+const srcMatchGuard = `
+@ GET /quota/:requested {
+  $ limit = 50
+  $ asked = parseInt(requested)
+  $ granted = match asked {
+    limit when limit > 1000 => 1000
+    0 => 0
+    _ => limit
+  }
+  > granted
+}
+`
+
+func VerifC01_MatchGuard() {
+	req := []string{"5000", "0", "7", "1000", "1001"}[zzverif.Choice("requested", 5)]
+	got, ok := runSource(srcMatchGuard, nil, map[string]string{"requested": req})
+	want := int64(50)
+	switch req {
+	case "5000", "1001":
+		want = 1000
+	case "0":
+		want = 0
+	}
+	zzverif.Assert(ok && got == interface{}(want), "match: guard / variable pattern binds or selects wrongly")
+	zzverif.Reach("matchguard")
+}
+
+// arrays are values: + builds a new array and leaves its operands alone, also
+// when they came out of append() (spare capacity)
+const srcArrayConcat = `
+@ GET /t {
+  $ base = append(append(append([], 1), 2), 3)
+  $ left = base + ["L"]
+  $ right = base + ["R"]
+  $ more = append(base, "M")
+  > [left[3], right[3], more[3], length(base)]
+}
+`
+
+func VerifC01_ArrayValues() {
+	got, ok := runSource(srcArrayConcat, nil, nil)
+	arr, isArr := got.([]interface{})
+	zzverif.Assert(ok && isArr && len(arr) == 4, "array program failed")
+	zzverif.Assert(arr[0] == interface{}("L") && arr[1] == interface{}("R") && arr[2] == interface{}("M") && arr[3] == interface{}(int64(3)),
+		"array + / append changed an array another variable still holds")
+	zzverif.Reach("arrays")
+}
